@@ -326,18 +326,20 @@ def trend_cases(draw):
     deg = draw(st.integers(0, 4))
     ncoef = (deg + 1) * (deg + 2) // 2
     side = deg + 2 + draw(st.integers(0, 3))
+    many = draw(st.sampled_from([0, 0, 0, 0, 0, 60, 250]))  # now and then a few hundred points (the size of the system enters some solvers' cut-offs)
+    side = max(side, int(math.sqrt(many)) + 3)
     # at least N+1 distinct rows and columns: start from a diagonal, then add free cells
     base = [(k, (k * 2 + 1) % side) for k in range(side)]
-    extra_n = max(0, ncoef - side) + draw(st.sampled_from([0, 0, 1, 2, 3, 5, 8]))
+    extra_n = max(0, ncoef - side) + (many or draw(st.sampled_from([0, 0, 1, 2, 3, 5, 8])))
     extra = draw(st.lists(st.tuples(st.integers(0, side - 1), st.integers(0, side - 1)), min_size=extra_n, max_size=extra_n, unique=True))
     cells = list(dict.fromkeys(base + extra))
     k = draw(st.integers(-2, 4))
     cloud = dict(cells=[list(c) for c in cells], side=side, scale=10.0 ** k, aspect=draw(st.sampled_from([1.0, 0.1, 10.0])),
-                 ratio=[draw(st.sampled_from([0.0, 0.0, 1.0, -1.0, 10.0])), draw(st.sampled_from([0.0, 0.0, 1.0, -10.0]))])
-    pdeg = draw(st.integers(0, deg))
+                 ratio=[draw(st.sampled_from([0.0, 0.0, 1.0, -1.0, 10.0, 100.0, -1000.0])), draw(st.sampled_from([0.0, 0.0, 1.0, -10.0, 1000.0]))])
+    pdeg = draw(st.sampled_from([deg, deg, draw(st.integers(0, deg))]))  # mostly a polynomial of the trend's own degree
     coefs = {}
     for (i, j) in kernels.monomials(pdeg):
-        c = draw(st.integers(-5, 5))
+        c = draw(st.sampled_from([-5, -3, -2, -1, 1, 2, 3, 5, 0, 0]))
         if c:
             coefs["%d,%d" % (i, j)] = c
     m = draw(st.integers(1, 8))
@@ -365,9 +367,34 @@ def check_trend(case, ctx):
     ncoef = (deg + 1) * (deg + 2) // 2
     if e.size < ncoef:
         ctx.skip("fewer_points_than_coefficients")
-    kappa = scaled_cond(kernels.trend_jacobian(e, n, deg))
+    jac_ = kernels.trend_jacobian(e, n, deg)
+    kappa = scaled_cond(jac_)
     if not kappa <= 1e8:
-        ctx.skip("ill_conditioned")
+        # badly conditioned (large offset relative to the extent, high degree): predictions away from the data cannot be judged, but a backward
+        # stable least-squares solution still reproduces data that lie in the column space, far better than the condition number suggests.
+        # A solver that truncates resolvable singular values does not.
+        if not kappa <= 3e12:
+            ctx.skip("ill_conditioned")
+        # the polynomial is taken in coordinates local to the data box (values of order one although the absolute coordinates are huge: what
+        # real data look like, and the hard case for the solver because the absolute monomials cancel heavily)
+        ef, nf = [Fraction(float(x)) for x in np.ravel(e)], [Fraction(float(y)) for y in np.ravel(n)]
+        e0, n0 = min(ef), min(nf)
+        we, wn = (max(ef) - e0) or Fraction(1), (max(nf) - n0) or Fraction(1)
+        vals_ = np.array([float(sum(c * ((x - e0) / we) ** int(k.split(",")[0]) * ((y - n0) / wn) ** int(k.split(",")[1]) for k, c in case["poly"].items())) for x, y in zip(ef, nf)])
+        d_ = lay_(vals_, case["shape"])
+        tr_ = vd.Trend(deg)
+        tr_.fit((e, n), d_)
+        resid = np.abs(np.asarray(tr_.predict((e, n)), dtype="float64").ravel() - d_.ravel())
+        # measured on the unchanged library (offsets up to 1000 x extent, degrees 1-4, 20-6000 points): the misfit stays 200 times below
+        # kappa*eps; a solver that truncates resolvable singular values misses by 1e-2 of the data and more
+        bound = max(16 * kappa * EPS, 1e-9) * max(float(np.max(np.abs(d_))), 1e-300)
+        if not np.all(resid <= bound):
+            k = int(np.argmax(resid))
+            raise Violation("Trend(%d) fitted to a degree-%d polynomial (given in coordinates local to the data box) at %d points with coordinates offset by up to 1000 extents "
+                            "(condition number %.1e) misses its own data by %.3e, more than %.3e" % (deg, max([sum(map(int, kk.split(","))) for kk in case["poly"]] + [0]), e.size, kappa, float(resid[k]), bound))
+        ctx.label("deg%d" % deg, "ill_conditioned_local_polynomial")
+        ctx.nt(True)
+        return
     vals, _ = poly_eval(case["poly"], e, n)
     d = lay_(vals, case["shape"])
     tr = vd.Trend(deg)
@@ -441,6 +468,50 @@ def check_large(case, ctx):
     ctx.nt(True)
 
 
+# ---------------------------------------------------------------- trends far from the origin
+@st.composite
+def offset_trend_cases(draw):
+    deg = draw(st.integers(1, 4))
+    return dict(degree=deg, ratio=draw(st.sampled_from([10.0, 100.0, 1000.0])), n=draw(st.sampled_from([60, 300, 1500, 6000])), seed=draw(st.integers(0, 10**6)),
+                scale=draw(st.sampled_from([1.0, 1e3, 1e-2])), coefs=[draw(st.sampled_from([-3, -2, -1, 1, 2, 3])) for _ in range((deg + 1) * (deg + 2) // 2)], weights=draw(st.booleans()))
+
+
+def check_offset_trend(case, ctx):
+    """The property's own corner: coordinates offset by up to 1000 extents, hundreds to thousands of points, data that are a polynomial of the trend's
+    degree in coordinates local to the data box (values of order one).  Judged at the data points, where no extrapolation enters."""
+    rng = np.random.RandomState(case["seed"])  # a pure function of the generated case
+    deg, n, ratio, sc = case["degree"], case["n"], case["ratio"], case["scale"]
+    u, v = rng.uniform(0, 1, n), rng.uniform(0, 1, n)
+    e, nn = sc * (ratio + u), sc * (-ratio + 2.0 * v)
+    # local coordinates recovered exactly from the float coordinates
+    ul, vl = (e - e.min()) / (e.max() - e.min()), (nn - nn.min()) / (nn.max() - nn.min())
+    d = sum(c * ul**i * vl**j for c, (i, j) in zip(case["coefs"], kernels.monomials(deg)))
+    jac = kernels.trend_jacobian(e, nn, deg)
+    # what double precision allows here: a plain SVD solve of the column-normalised system that keeps every singular value above machine precision
+    a_n = jac / np.sqrt((jac**2).sum(axis=0))
+    w_ = 1.0 + (np.arange(n) % 4) if case["weights"] else np.ones(n)
+    x_ref = np.linalg.lstsq(a_n * np.sqrt(w_)[:, None], d * np.sqrt(w_), rcond=EPS)[0]
+    big = float(np.max(np.abs(d)))
+    ref = float(np.max(np.abs(a_n @ x_ref - d))) / big
+    if not ref <= 1e-6:
+        ctx.skip("beyond_double_precision")
+    tr = vd.Trend(deg)
+    if case["weights"]:
+        tr.fit((e, nn), d, weights=w_)
+    else:
+        tr.fit((e, nn), d)
+    got = float(np.max(np.abs(np.asarray(tr.predict((e, nn)), dtype="float64") - d))) / big
+    # measured on the unchanged library over this whole domain: at most 24 times the reference misfit; a solver that discards resolvable singular
+    # values is off by a factor of 1e4 and more
+    bound = 1000 * max(ref, 1e-12)
+    if not got <= bound:
+        raise Violation("Trend(%d) fitted to a degree-%d polynomial at %d points whose coordinates are offset by %g extents misses its own data by %.3e of their size; "
+                        "a plain SVD solve in double precision misses by %.3e (allowed: 1000 times that)" % (deg, deg, n, ratio, got, ref))
+    kappa = ref
+    ctx.label("deg%d" % deg, "ratio%g" % ratio, "n%d" % n, "ref_misfit_1e%d" % int(math.floor(math.log10(max(ref, 1e-17)))))
+    ctx.nt(ref > 1e-12)
+
+
 SUBCHECKS = [
     Sub("spline", check_spline, strategy=spline_cases_tier, quick=250, thorough=800, shards_quick=4,
         doc="undamped Spline with forces at the data reproduces the data within 64 kappa eps max|d| (kappa from the harness' own Jacobian)"),
@@ -456,4 +527,6 @@ SUBCHECKS = [
         doc="Trend(N) fitted to an integer-coefficient polynomial of total degree <= N reproduces it at other locations"),
     Sub("large", check_large, strategy=large_cases(), quick=6, thorough=40, heavy=True,
         doc="400 - 700 scattered points (condition numbers around 1e6-1e7, also integer-dtype data): Spline, KNeighbors, Linear and a Trend+KNeighbors chain reproduce their data"),
+    Sub("trend_offset", check_offset_trend, strategy=offset_trend_cases(), quick=40, thorough=300, heavy=True,
+        doc="Trend of degree 1-4 on 60 - 6 000 points whose coordinates are offset by 10 - 1 000 extents: data that are a local polynomial of that degree are reproduced at the data points"),
 ]
